@@ -521,6 +521,10 @@ async fn run_history(hist: &[Op]) -> Result<HistOutcome, Violation> {
             }
         }
         sys.compare(hist, step)?;
+        if step == 0 {
+            // an earlier scrape must not influence what a later one reports
+            let _ = vh::metrics_collect(&sys.world.ctx);
+        }
     }
     // fingerprint of the state reached: reference counters + which sessions / tunnels / flows are
     // alive and in which slots (operations address "oldest"/"newest")
